@@ -358,26 +358,44 @@ def t_cw_update(name):
             % (name, tr.signature(), e, name, test, fz))
 
 
+def is_accepted_expr(e, aliases):
+    """`chain.acceptance[-1]['accepted']`, or a local name bound to it"""
+    if isinstance(e, ast.Name):
+        return e.id in aliases
+    return (isinstance(e, ast.Subscript) and isinstance(e.slice, ast.Constant) and e.slice.value == 'accepted'
+            and isinstance(e.value, ast.Subscript) and dotted(e.value.value) == 'chain.acceptance'
+            and isinstance(e.value.slice, ast.UnaryOp) and isinstance(e.value.slice.op, ast.USub)
+            and isinstance(e.value.slice.operand, ast.Constant) and e.value.slice.operand.value == 1)
+
+
 def t_veitch_alpha():
+    """alpha = (1 - target) after an accepted step, (-target) after a rejected one - as an if/else statement or a conditional
+    expression - and the increment alpha * dk * deltas / 10 (assigned to `dsigmas`, or added to the widths directly)"""
     body = guarded_body('epsie/proposals/normal.py', 'AdaptiveSupport', '_update')
-    ifs = [s for s in body if isinstance(s, ast.If) and any(isinstance(n, ast.Assign) and dotted(n.targets[0]) == 'alpha' for n in s.body)]
-    ds = [s for s in body if isinstance(s, ast.Assign) and dotted(s.targets[0]) == 'dsigmas']
-    if len(ifs) != 1 or len(ds) != 1:
-        raise Untranslatable('AdaptiveSupport._update: expected one if/else assigning alpha and one `dsigmas = ...`')
-    i = ifs[0]
-    if not (len(i.body) == 1 and len(i.orelse) == 1 and isinstance(i.orelse[0], ast.Assign) and dotted(i.orelse[0].targets[0]) == 'alpha'
-            and isinstance(i.test, ast.Subscript) and isinstance(i.test.slice, ast.Constant) and i.test.slice.value == 'accepted'
-            and isinstance(i.test.value, ast.Subscript) and dotted(i.test.value.value) == 'chain.acceptance'
-            and isinstance(i.test.value.slice, ast.UnaryOp) and isinstance(i.test.value.slice.op, ast.USub)
-            and isinstance(i.test.value.slice.operand, ast.Constant) and i.test.value.slice.operand.value == 1):
-        raise Untranslatable("AdaptiveSupport._update: alpha is not chosen by `if chain.acceptance[-1]['accepted']`")
+    aliases = {dotted(s.targets[0]) for s in body if isinstance(s, ast.Assign) and len(s.targets) == 1 and is_accepted_expr(s.value, set())}
+    a1 = a0 = None
     tr = NTr(any_attr=True)
-    a1 = tr.num(i.body[0].value, {})
-    a0 = tr.num(i.orelse[0].value, {})
+    for s in body:
+        if isinstance(s, ast.If) and is_accepted_expr(s.test, aliases) and len(s.body) == 1 and len(s.orelse) == 1 \
+                and all(isinstance(x, ast.Assign) and dotted(x.targets[0]) == 'alpha' for x in (s.body[0], s.orelse[0])):
+            a1, a0 = tr.num(s.body[0].value, {}), tr.num(s.orelse[0].value, {})
+        elif isinstance(s, ast.Assign) and dotted(s.targets[0]) == 'alpha' and isinstance(s.value, ast.IfExp) and is_accepted_expr(s.value.test, aliases):
+            a1, a0 = tr.num(s.value.body, {}), tr.num(s.value.orelse, {})
+    if a1 is None:
+        raise Untranslatable("AdaptiveSupport._update: alpha is not chosen by chain.acceptance[-1]['accepted']")
+    inc = None
+    for s in body:
+        if isinstance(s, ast.Assign) and dotted(s.targets[0]) == 'dsigmas':
+            inc = s.value
+        elif (inc is None and isinstance(s, ast.Assign) and isinstance(s.value, ast.BinOp) and isinstance(s.value.op, ast.Add)
+              and dotted(s.value.left) in ('sigmas', 'self._std') and any(isinstance(n, ast.Name) and n.id == 'alpha' for n in ast.walk(s.value.right))):
+            inc = s.value.right
+    if inc is None:
+        raise Untranslatable('AdaptiveSupport._update: no increment of the widths in alpha found')
     t2 = NTr(any_attr=True)
     for p_ in ('alpha', 'd'):
         t2.param(p_)
-    e = t2.num(ds[0].value, {'alpha': ('T', 'alpha'), 'dk': ('T', 'd')})
+    e = t2.num(inc, {'alpha': ('T', 'alpha'), 'dk': ('T', 'd')})
     return ('Definition src_veitch_alpha {T : Type} `{Num T} (accepted : bool) %s : T := if accepted then %s else %s.\n\n'
             'Definition src_veitch_dsigma {T : Type} `{Num T} %s : T := %s.' % (tr.signature(), a1, a0, t2.signature(), e))
 
